@@ -415,6 +415,9 @@ func (e *Engine) resolveType(pkgPath, text string) (types.Type, error) {
 	if text == "seq" {
 		return seqType, nil
 	}
+	if text == "bytepred" {
+		return bytePredType, nil
+	}
 	if obj := types.Universe.Lookup(text); obj != nil {
 		if tn, ok := obj.(*types.TypeName); ok {
 			return tn.Type(), nil
@@ -452,6 +455,8 @@ func (e *Engine) resolveType(pkgPath, text string) (types.Type, error) {
 }
 
 // Spec-only types.
+var bytePredType = types.NewSignatureType(nil, nil, nil, types.NewTuple(types.NewVar(token.NoPos, nil, "b", types.Typ[types.Uint8])), types.NewTuple(types.NewVar(token.NoPos, nil, "", types.Typ[types.Bool])), false)
+
 var (
 	setType = types.NewNamed(types.NewTypeName(token.NoPos, nil, "set", nil), types.NewMap(types.Typ[types.Int], types.Typ[types.Bool]), nil)
 	seqType = types.NewNamed(types.NewTypeName(token.NoPos, nil, "seq", nil), types.NewSlice(types.Typ[types.Int]), nil)
